@@ -19,12 +19,12 @@ def run(ctx):
     # 2. breadth-first exploration of the REAL code's state graph over the model's configurations and alphabet
     evs = []
     tr = ctx.path("small.ndjson")
-    ctx.run_bin("c30", ["small", "--depth", 3 if q else 4, "--full", 0 if q else 1, "--out", tr])
+    ctx.run_bin("c30", ["small", "--depth", 3 if q else 4, "--full", 0, "--out", tr])
     # 3. random sequences with larger values
     rr = ctx.path("random.ndjson")
     ctx.run_bin("c30", ["random", "--seed", ctx.seed, "--n", 6000 if q else 80000, "--out", rr])
     for path, drv in ((tr, "h-programs c30 small"), (rr, "h-programs c30 random")):
-        fails, drifts, _ = ctx.validate_trace("Trace_Gt", path, timeout=3000)
+        fails, drifts = c24.validate_chunked(ctx, "Trace_Gt", path, chunk=120000)
         ev = vlib.read_ndjson(path)
         for f in fails:
             e = ev[f["i"] - 1]
